@@ -616,12 +616,24 @@ func (env *Env) call(x *ECall) Val {
 		return mathInt(sx("imin", arg(0).T, arg(1).T))
 	case "max":
 		return mathInt(sx("imax", arg(0).T, arg(1).T))
-	case "unbox", "hastype":
+	case "unbox", "hastype", "asptr":
 		// unbox(x, T): the struct value of type T stored in interface value x; hastype(x, T): x holds a value of type T
 		if len(x.Args) != 2 {
 			cfail("%s(x, Type)", x.Fun)
 		}
 		xv := arg(0)
+		if x.Fun == "asptr" {
+			// asptr(x, T): the *T held by interface value x (the interface value of a pointer is the pointer itself)
+			pn, ok := x.Args[1].(*EIdent)
+			if !ok {
+				cfail("%s: second argument must be a type name", x.Fun)
+			}
+			pty, _ := env.lookupType("*" + pn.Name)
+			if pty == nil {
+				cfail("%s: unknown type *%s", x.Fun, pn.Name)
+			}
+			return Val{T: xv.T, S: "Int", Ty: pty}
+		}
 		tn, ok := x.Args[1].(*EIdent)
 		if !ok {
 			cfail("%s: second argument must be a type name", x.Fun)
